@@ -17,6 +17,7 @@ def get_type_layout(
 ) -> Tuple[Optional[Dict[str, str]], Optional[Dict[str, str]], Dict[int, str]]:
     reserved = set()
     path_to_key = {}
+    generated = []
     for i, (bin_path, arg) in enumerate(flat_args):
         key = arg.field_name
         if key is None and not entrypoints:
@@ -27,6 +28,16 @@ def get_type_layout(
         else:
             assert entrypoints is False, f'duplicate key {key}'
             path_to_key[bin_path] = f'{arg.prim}_{i}'
+            generated.append(bin_path)
+
+    # a generated name must differ from every declared one, wherever it is declared: `pair (nat %nat_1) nat`
+    taken = set(reserved)
+    for bin_path in generated:
+        name = path_to_key[bin_path]
+        while name in taken:
+            name += '_'
+        taken.add(name)
+        path_to_key[bin_path] = name
 
     idx_to_path = dict(enumerate(path_to_key))
     if len(reserved) == 0 and infer_names is False and entrypoints is False:
